@@ -24,6 +24,9 @@ def main(argv):
     if "--tier" in args:
         os.environ["VERIF_TIER"] = args[args.index("--tier") + 1]
     tier, seed = common.tier(), common.seed()
+    if pid == "util":
+        import eng_util
+        return eng_util.run()
     if pid not in ENGINE:
         print(f"unknown property {pid}")
         return 2
